@@ -248,59 +248,105 @@ func vH_C17_roundtripN_m40() { vRoundTripN(2, 21) }
 func vH_C17_roundtripN_m48() { vRoundTripN(3, 25) }
 func vH_C17_roundtripN_m56() { vRoundTripN(4, 29) }
 
-// H17.6 canonicity: whatever byte string the decoder accepts is exactly what
-// the encoder produces for the decoded body with one of the two padding bits.
-func vCanon(mode int, maxN int) {
-	c, _ := vRefModeC(mode)
-	n := vNondetInt("n")
-	vAssume(n >= 1 && n <= maxN)
-	maxEnc := ((maxN + c - 1) / c) * 8
-	el := vNondetInt("enclen")
-	vAssume(el >= 0 && el <= maxEnc)
-	enc := vNondetBytes("enc", maxEnc)[:el]
-	h := vNondetU32("h")
-	r := vNondetU8("rot")
-	m := appctlpb.LowEntropyMode(mode)
-	rot := appctlpb.LowEntropyMaskRotation(r)
-	dec, err := decodeLowEntropyPayload(enc, n, m, h, rot)
-	if err != nil {
-		return
-	}
-	_, ones := vRefModeC(mode)
-	vAssert(bits.OnesCount32(h) == ones, "accepted => mask weight is the mode's")
-	vAssert(vRefValidRotation(int(r)), "accepted => rotation valid")
-	vAssert(el == ((n+c-1)/c)*8, "accepted => encoded length consistent with extracted length")
+// H17.6 canonicity and rejection.  Whatever byte string the decoder accepts
+// is exactly what the encoder produces for the decoded body with padding bit 0
+// or 1 (so unused mask-selected positions of a partial last chunk and every
+// non-selected position carry one uniform padding bit), and the metadata
+// consistency rules hold.  Two cuts as for the round trip: one chunk with every
+// mask, several chunks with the concrete per-chunk mask table.
+func vCanonCheck(mode int, n int, enc []byte, h uint32, rot appctlpb.LowEntropyMaskRotation, dec []byte) {
 	vAssert(len(dec) == n, "accepted => decoded length = N")
-	e0, err0 := encodeLowEntropyPayloadWithPaddingBit(dec, m, h, rot, 0)
-	e1, err1 := encodeLowEntropyPayloadWithPaddingBit(dec, m, h, rot, 1)
-	vAssert(err0 == nil && err1 == nil, "re-encoding the decoded body succeeds")
-	eq0, eq1 := len(e0) == el, len(e1) == el
-	for i := 0; i < maxEnc; i++ {
-		if i < el {
-			if i < len(e0) && e0[i] != enc[i] {
-				eq0 = false
-			}
-			if i < len(e1) && e1[i] != enc[i] {
-				eq1 = false
-			}
+	e0, err0 := encodeLowEntropyPayloadWithPaddingBit(dec, vMode(mode), h, rot, 0)
+	e1, err1 := encodeLowEntropyPayloadWithPaddingBit(dec, vMode(mode), h, rot, 1)
+	vAssert(err0 == nil && err1 == nil && len(e0) == len(enc) && len(e1) == len(enc), "re-encoding the decoded body succeeds with the same length")
+	eq0, eq1 := true, true
+	for i := 0; i < len(enc); i++ {
+		if e0[i] != enc[i] {
+			eq0 = false
+		}
+		if e1[i] != enc[i] {
+			eq1 = false
 		}
 	}
 	vAssert(eq0 || eq1, "accepted input is the canonical encoding with padding bit 0 or 1")
 }
 
-func vH_C17_canon1_m32() { vCanon(1, 4) }
-func vH_C17_canon1_m40() { vCanon(2, 5) }
-func vH_C17_canon1_m48() { vCanon(3, 6) }
-func vH_C17_canon1_m56() { vCanon(4, 7) }
-
-func vH_dbg() {
+func vCanon1(mode int) {
+	c, ones := vRefModeC(mode)
 	h := vNondetU32("h")
-	vAssume(bits.OnesCount32(h) == 16)
-	vStubMode, vStubInitial, vStubRotation, vStubArgsOK = 1, mathext.RepeatUint32(h), 0, true
-	for n := 1; n <= 2; n++ {
-		src := vNondetBytes("src", n)
-		enc, err := encodeLowEntropyPayloadWithPaddingBit(src, vMode(1), h, 0, 0)
-		vAssert(err == nil, "encode succeeds on valid parameters")
-		vAssert(len(enc) == 8, "len")
+	r := vNondetU8("rot")
+	rot := appctlpb.LowEntropyMaskRotation(r)
+	for n := 1; n <= c; n++ {
+		enc := vNondetBytes("enc", 8)
+		dec, err := decodeLowEntropyPayload(enc, n, vMode(mode), h, rot)
+		if err != nil {
+			continue
+		}
+		vAssert(bits.OnesCount32(h) == ones, "accepted => mask weight is the mode's")
+		vAssert(vRefValidRotation(int(r)), "accepted => rotation is in the documented set")
+		vCanonCheck(mode, n, enc, h, rot, dec)
 	}
+}
+
+func vH_C17_canon1_m32() { vCanon1(1) }
+func vH_C17_canon1_m40() { vCanon1(2) }
+func vH_C17_canon1_m48() { vCanon1(3) }
+func vH_C17_canon1_m56() { vCanon1(4) }
+
+func vCanonN(mode int, maxN int) {
+	c, ones := vRefModeC(mode)
+	h := vNondetU32("h")
+	vAssume(bits.OnesCount32(h) == ones)
+	r := vNondetU8("rot")
+	rot := appctlpb.LowEntropyMaskRotation(r)
+	vAssume(isValidLowEntropyRotation(rot))
+	vStubMode, vStubInitial, vStubRotation, vStubArgsOK = mode, mathext.RepeatUint32(h), rot, true
+	for n := 1; n <= maxN; n++ {
+		chunks := (n + c - 1) / c
+		enc := vNondetBytes("enc", chunks*8)
+		dec, err := decodeLowEntropyPayload(enc, n, vMode(mode), h, rot)
+		if err != nil {
+			continue
+		}
+		vCanonCheck(mode, n, enc, h, rot, dec)
+	}
+	// inconsistent lengths are rejected
+	el := vNondetInt("enclen")
+	n2 := vNondetInt("n2")
+	vAssume(el >= 0 && el <= 48 && n2 >= 1 && n2 <= 24)
+	_, err := decodeLowEntropyPayload(vNondetBytes("enc2", 48)[:el], n2, vMode(mode), h, rot)
+	if err == nil {
+		vAssert(el == ((n2+c-1)/c)*8, "accepted => encoded length = ceil(N/C)*8")
+	}
+}
+
+func vH_C17_canonN_m32() { vCanonN(1, 9) }
+func vH_C17_canonN_m40() { vCanonN(2, 11) }
+func vH_C17_canonN_m48() { vCanonN(3, 13) }
+func vH_C17_canonN_m56() { vCanonN(4, 15) }
+
+// validateLowEntropyDataAckMetadata accepts exactly the mutually consistent
+// (type, mode, mask weight, rotation, payloadLen, extractedPayloadLen) tuples
+func vH_C17_validate_metadata() {
+	das := &dataAckStruct{
+		baseStruct:             baseStruct{protocol: vNondetU8("protocol")},
+		lowEntropyMode:         vNondetU8("mode"),
+		payloadLen:             vNondetU16("payloadLen"),
+		lowEntropyMask:         vNondetU32("mask"),
+		extractedPayloadLen:    vNondetU16("extractedLen"),
+		lowEntropyMaskRotation: vNondetU8("rotation"),
+	}
+	err := validateLowEntropyDataAckMetadata(das)
+	c, ones := vRefModeC(int(das.lowEntropyMode))
+	ok := (das.protocol == 10 || das.protocol == 11) && c != 0 && bits.OnesCount32(das.lowEntropyMask) == ones &&
+		vRefValidRotation(int(das.lowEntropyMaskRotation)) && int(das.extractedPayloadLen) <= 32768
+	if ok {
+		n := int(das.extractedPayloadLen)
+		if n == 0 {
+			ok = das.payloadLen == 0
+		} else {
+			ok = int(das.payloadLen) == ((n+c-1)/c)*8
+		}
+	}
+	vAssert((err == nil) == ok, "metadata accepted <=> type, mode, mask weight, rotation and the two lengths are mutually consistent")
 }
